@@ -26,10 +26,20 @@ func c01Case(sh []*Sh, name string) *Case {
 			nontrivial = true
 		}
 	})
-	return &Case{
-		Name: name, Prog: prog, Variants: optVariants, Shape: ShString(sh), NonTrivial: nontrivial,
-		Oracle: bisimOracle("bisimulation", func(x *OracleCtx) []*Script { return scriptsOf(x.Case.Prog) }, nil),
+	cs := &Case{Name: name, Prog: prog, Variants: optVariants, Shape: ShString(sh), NonTrivial: nontrivial}
+	main := bisimOracle("bisimulation", func(x *OracleCtx) []*Script { return scriptsOf(prog) }, nil)
+	alt := bisimOracle("bisimulation-alt", func(x *OracleCtx) []*Script { return scriptsOf(prog) }, func(x *OracleCtx) RefOptions { return RefOptions{DropAfterBreak: true} })
+	labelAfterBreak := shapeHasStmtAfterBreak(sh)
+	cs.Oracle = func(x *OracleCtx) *Violation {
+		v := main(x)
+		if v != nil && labelAfterBreak {
+			if av := alt(x); av == nil {
+				v.Tags = append(v.Tags, "explained_by_statements_after_break_dropped")
+			}
+		}
+		return v
 	}
+	return cs
 }
 
 // labelAfterBreak: known finding #10 predicate - a label directly (or after
@@ -144,10 +154,15 @@ func matchKnown(k *KnownFinding, f *Finding) bool {
 	shape, _ := f.Shape.(string)
 	switch m.Kind {
 	case "label_after_break":
-		// the shape has a label after a break in one block, and the defect's
-		// signature: the label is missing from the output
-		if sh, ok := f.Shape.(string); ok && strings.Contains(sh, "break") {
-			return shapeStringLabelAfterBreak(sh)
+		// the shape has a label after a break in one block, and the native
+		// output behaves exactly as if the statements after the break did
+		// not exist
+		if sh, ok := f.Shape.(string); ok && strings.Contains(sh, "break") && shapeStringLabelAfterBreak(sh) {
+			for _, t := range f.Tags {
+				if t == "explained_by_statements_after_break_dropped" {
+					return true
+				}
+			}
 		}
 	}
 	_ = shape
